@@ -234,6 +234,42 @@ theorem all_async_callees_known :
   obtain ⟨ch, hch, hsch⟩ := List.mem_flatten.1 hs
   exact h ch hch s hsch
 
+/-! ### Adapter pairs -/
+
+/-- **Both flavours of every adapter forward the same trait methods.** For every pair
+`impl T for X` / `impl AsyncT for AsyncX` of non-test code (`SignerWrapper`/`AsyncSignerWrapper`
+as `CoseSigner` and as `TimeStampProvider`, `Box<T>` as `Signer`, `CallbackSigner`, the resolver
+stacks, the identity assertion builders, the X.509 credential holders) the two `impl` blocks
+define the same set of methods: none is overridden in one flavour and left to the trait's
+default body in the other. -/
+theorem adapter_pairs_forward_same_methods :
+    Gen.implPairs.all (fun p => p.test || p.syncMethods == p.asyncMethods) = true := by
+  decide +kernel
+
+/-- … and each common method has token-twin, await-balanced bodies, or is one of three reviewed
+methods bound to its own relation. -/
+theorem adapter_methods_twin_or_reviewed :
+    Gen.implPairs.all (fun p => p.test || p.methodsOk) = true := by
+  decide +kernel
+
+theorem reviewed_methods_all_used :
+    reviewedMethods.all (fun r => Gen.implPairs.any (fun p => !p.test && p.traitName == r.1 && p.ty == r.2.1 &&
+      p.methods.any (fun m => m.name == r.2.2.1 && !m.ok none))) = true := by
+  decide +kernel
+
+/-- the adapters the signing path goes through are in the table (so the two theorems above are
+about them) -/
+theorem signer_adapters_present :
+    ([("CoseSigner", "SignerWrapper < '_ >"), ("TimeStampProvider", "SignerWrapper < '_ >"),
+      ("Signer", "Box < T >"), ("Signer", "CallbackSigner")] : List (String × String)).all
+      (fun k => Gen.implPairs.any (fun p => !p.test && p.traitName == k.1 && p.ty == k.2 &&
+        !p.syncMethods.isEmpty)) = true := by
+  decide +kernel
+
+theorem async_only_impls_reviewed :
+    Gen.asyncOnlyImpls.all (fun i => i.2.2.2 || reviewedAsyncOnly.contains (i.2.1, i.2.2.1)) = true := by
+  decide +kernel
+
 /-! ### Awaited futures -/
 
 theorem chunks_await_balanced :
